@@ -299,6 +299,34 @@ def run_case(case, ctx):
             if len(cols) == 1:
                 check("matricize", {"row_modes": rows, "column_modes": cols[0]},
                       lambda T, rows=rows, cols=cols: B.matricize(T, rows, cols[0]), E)
+    # the caller's `shape` argument may be a list that is reused afterwards: it must come back untouched, and a second call with
+    # the same list object must still be right
+    if dt == DTYPES[-3] and nd >= 2:
+        A = planes[0].reshape(shape)
+        for mode in range(nd):
+            shp_list = list(shape)
+            U = A.transpose([mode] + [k for k in range(nd) if k != mode]).reshape(shape[mode], -1)
+            for rep in range(2):
+                back = tl.fold(U, mode, shp_list)
+                ctx.count("calls/fold_list_shape")
+                if shp_list != list(shape):
+                    ctx.violation("C01:fold:shape-argument-edited", "fold(mode=%d) edited the caller's shape list %s -> %s" % (mode, shape, shp_list), {"shape": shape, "mode": mode})
+                    return
+                if not _same(back, A):
+                    ctx.violation("C01:fold:roundtrip", "fold with a list shape (call %d) != tensor; shape %s mode %d" % (rep + 1, shape, mode), {"shape": shape, "mode": mode})
+                    return
+            for sb in range(nd):
+                for se in range(nd - sb):
+                    if nd - sb - se < 1 or mode >= nd - sb - se:
+                        continue
+                    shp_list = list(shape)
+                    PU = B.partial_unfold(A, mode=mode, skip_begin=sb, skip_end=se)
+                    for rep in range(2):
+                        back = B.partial_fold(PU, mode, shp_list, skip_begin=sb, skip_end=se)
+                        if shp_list != list(shape) or not _same(back, A):
+                            ctx.violation("C01:partial_fold:shape-argument-edited" if shp_list != list(shape) else "C01:partial_fold:roundtrip",
+                                          "partial_fold with a reused list shape failed (call %d): shape %s mode %d skip %d/%d, list now %s" % (rep + 1, shape, mode, sb, se, shp_list), {"shape": shape})
+                            return
     # invalid splits must raise ValueError
     if nd >= 2:
         A = planes[0].reshape(shape)
